@@ -46,7 +46,8 @@ class _BaseITML(MahalanobisMixin):
     else:
       bounds = check_array(bounds, allow_nd=False, ensure_min_samples=0,
                            ensure_2d=False)
-      bounds = bounds.ravel()
+      # work on a copy: the zero replacement below must not reach the caller's array
+      bounds = bounds.ravel().copy()
       if bounds.size != 2:
         raise ValueError("`bounds` should be an array-like of two elements.")
       self.bounds_ = bounds
